@@ -50,7 +50,10 @@ typedef union { long long i; unsigned long long u; double d; long double ld; con
 /* value tables */
 static const long long IV[] = { 0, 1, -1, 42, -42, 0x7fffffffLL, -0x80000000LL, 0x7fffffffffffffffLL, (-0x7fffffffffffffffLL - 1) };
 static const unsigned long long UV[] = { 0, 1, 255, 0xffffffffULL, 0xffffffffffffffffULL, 0x8000 };
-static const double DV[] = { 0.0, -0.0, 0.5, 1.5, 2.5, 999999999.5, 1e9, 1000000001.0, 1e300, 4.9406564584124654e-324, INFINITY, -INFINITY, NAN, 123.456, -0.001, 9.9999, 0.000123456, 1e-5, 12345678.9 };
+static const double DV[] = { 0.0, -0.0, 0.5, 1.5, 2.5, 999999999.5, 1e9, 1000000001.0, 1e300, 4.9406564584124654e-324, INFINITY, -INFINITY, NAN, 123.456, -0.001, 9.9999, 0.000123456, 1e-5, 12345678.9,
+    /* exponent borders and negative exponents: two/three exponent digits, carries into the next power of ten */
+    1e100, 9.9999996e99, 1e-100, 9.5e-100, 9.5e-10, 3.7e-7, 1e99, 9.99999e-5, 1e15, 123456789012345678.0 };
+#define NDV ((int)(sizeof DV / sizeof DV[0]))
 static const char *SV[] = { "", "abc", "a string of exactly forty characters !!!", "h\xc3\xa9llo" };
 static const wchar_t *WV[] = { L"", L"wide", L"\xe9\x20ac" };
 static const wint_t WCV[] = { L'A', 0xe9 };
@@ -175,6 +178,8 @@ static void one(const char *fmt, int type, Val v, int ns, int s1, int s2, int is
             char pre[64]; if (hist == 0) f_sprintf(pre, sizeof pre, BOSU, "%d", 1); else f_sprintf(pre, sizeof pre, BOSU, "%Lf|%a", (long double)3.25, 1.0);
             char dest[800]; memset(dest, 0x55, sizeof dest); char *mem = NULL; size_t ml = 0; FILE *fp = NULL;
             if (IS_STREAM(entry) && !IS_STDOUT(entry)) fp = sfp;   /* a descriptor-backed stream: vfprintf_s rejects streams without one */
+            if (fp && hist == 1) { if (fgetc(fp) == EOF) {} }      /* second history for streams: an earlier failed read left the (sticky) error indicator set; C's fprintf does not look at it */
+            else if (fp) clearerr(fp);
             int r = 0, crashed = 0; h_n = 0; n_calls++;
             if (sigsetjmp(jb, 1) == 0) { armed = 1; r = call_lib(entry, dest, dmax, fp, fmt, type, v, ns, s1, s2); armed = 0; } else crashed = 1;
             if (fp) { fflush(fp); ssize_t c = pread(sf_fd, dest, 699, 0); if (c < 0) c = 0; dest[c] = 0; fseek(fp, 0, SEEK_SET); if (ftruncate(sf_fd, 0)) {} (void)mem; (void)ml; }
@@ -273,7 +278,7 @@ int main(int argc, char **argv) {
                         for (int li = 0; li < 2; li++) {
                             if ((idx++ % nsh) != shard) continue;
                             snprintf(fmt, sizeof fmt, "[%%%s%s%s%s%c]", fl, WID[wi], PRE[pi], li ? "L" : "", cv);
-                            for (int vi = 0; vi < 19; vi++) { Val v; memset(&v, 0, sizeof v); if (li) v.ld = DV[vi]; else v.d = DV[vi];
+                            for (int vi = 0; vi < NDV; vi++) { Val v; memset(&v, 0, sizeof v); if (li) v.ld = DV[vi]; else v.d = DV[vi];
                                 char vb[32]; snprintf(cls, sizeof cls, "%c,flags=%s,width=%s,prec=%s,len=%s,%s%s", cv | 0x20, fl[0] ? fl : "none", WCLS(wi), PCLS(pi), li ? "L" : "none", valcls(li ? T_LDBL : T_DBL, v, vb), neg ? ",negative-star" : "");
                                 one(fmt, li ? T_LDBL : T_DBL, v, ns, a1, a2, 1, cls, vi, tier);
                             }
